@@ -212,10 +212,11 @@ def directed_bases():
         "do top run", "end"]) + "\n")
     return out
 
+# bd_accep s0: the server-side socket obtained through accept_ep, with a read outstanding, once the accept completed
 # directed base -> groups (objects whose every intervention is run, (first, last) after-handler boundary s<k>,
 # (first, last) after-clock-step boundary a<k>); one range = the same numbers for both kinds
 DIRECTED = {"bd_udpw": [(["u0"], (1, 3)), (["u2", "u3"], (1, 2))],
-            "bd_accnew": [(["a0"], (1, 5))], "bd_accep": [(["a0"], (1, 5))], "bd_acc": [(["a0"], (1, 4))],
+            "bd_accnew": [(["a0"], (1, 5))], "bd_accep": [(["a0"], (1, 5)), (["s0"], (8, 10))], "bd_acc": [(["a0"], (1, 4))],
             "bd_res": [(["r0"], (1, 7))],
             # s0: peer of the pending accept (1..4, never destroyed there), then a read on the accepted side of an
             # established connection before anything was written (5..8)
